@@ -304,7 +304,8 @@ def run(ctx: core.Ctx) -> None:
         behs = export_behaviours(ctx, kind, depth)
         # 7, 8: the frac-face pressure held as a 0-d / 1-element array (what an interpolator hands back)
         # 9: a uniform grid A and non-uniform grids B, C that start with A's first step
-        replay_histories(ctx, kind, behs, variants + ([7, 8, 9] if kind == "ideal" or not ctx.quick else []), OWN_CLAUSES)
+        # 10: a fine grid on which the reservoir depletes to round-off, then coarse grids far beyond that time; 11: consecutive horizons
+        replay_histories(ctx, kind, behs, variants + ([7, 8, 9, 10, 11] if kind == "ideal" or not ctx.quick else []), OWN_CLAUSES)
     if not ctx.quick:
         # deeper single-phase histories: random behaviours of depth 6 from TLC's simulation mode
         behs = export_sampled(ctx, "single", 6, 1000)
